@@ -342,7 +342,7 @@ var (
 	vkC09Pool     []*Resolver
 )
 
-const vkC09FreshCap = 3000 // NewResolver leaks its run() goroutine; beyond this instances are recycled
+const vkC09FreshCap = 500 // NewResolver leaks its run() goroutine (a 50 ms poll loop); beyond this instances are recycled
 
 func vkC09Cfg(dir string) *config.Config {
 	u := vkC09Universe()
@@ -1086,7 +1086,9 @@ func vkC09CrashExpand(c *vkit.Ctx, h []vkC09Ev, w *vkC09World, power bool) *vkC0
 	}
 	seenImg := map[string]bool{}
 	for _, img := range images {
-		ik := vkC09ImageKey(img, w.dir)
+		// identical directory contents are judged once per durability class: the same bytes are a legal
+		// outcome before the first record is complete and a lost revocation after it
+		ik := fmt.Sprintf("%v|%s", img.Prefix >= d, vkC09ImageKey(img, w.dir))
 		if seenImg[ik] {
 			continue
 		}
